@@ -1706,7 +1706,7 @@ def rand_utf8_bytes(rng):
 def _disagree(ctx, name, case, res):
     """A correspondence disagreement: report the property failure if there is one, else a broken tie."""
     if res:
-        ctx.fail(res[0], res[1], case, True, "corr")
+        _fail(ctx, res[0], res[1], case, True, "corr")
     else:
         ctx.broken.append("correspondence %s: model and implementation disagree on %s" % (name, json.dumps(fw.jsonable(case))[:600]))
 
@@ -1744,6 +1744,14 @@ ORACLE_ONLY = [
     "webob.compat:cgi_FieldStorage", "webob.util:text_", "webob.util:bytes_",
     "cgi:FieldStorage", "cgi:parse_header", "mimetypes:guess_type",
 ]
+
+
+def _fail(ctx, key, what, case, found=True, source="oracle"):
+    """Report a failure; one defect = one key, whichever oracle met it: a failure that is the nested-multipart error
+    of an upload whose filename mimetypes reads as a data: URL of type multipart/* is filed under that defect."""
+    if ("Invalid boundary in multipart form" in what or "Err(ValueError)" in what) and re.search(r"data:multipart/", json.dumps(fw.jsonable(case)), re.I):
+        key = "multipart:filename-read-as-data-url"
+    ctx.fail(key, what, case, found, source)
 
 
 def run(ctx):
@@ -1872,7 +1880,7 @@ def run(ctx):
             nt += ("%" in qs or "+" in qs or ";" in qs)
             r = oracle_query(qs, via_request=(n <= 4 or cnt % 7 == 0))
             if r:
-                ctx.fail(r[0], r[1], {"kind": "query", "qs": qs}, True, "get-exhaustive")
+                _fail(ctx, r[0], r[1], {"kind": "query", "qs": qs}, True, "get-exhaustive")
             if n <= 4:
                 m = ref_selfcheck(qs)
                 if m:
@@ -1885,7 +1893,7 @@ def run(ctx):
             cnt += 1
             r = oracle_query(qs, via_request=(cnt % 5 == 0))
             if r:
-                ctx.fail(r[0], r[1], {"kind": "query", "qs": qs}, True, "get-exhaustive-2")
+                _fail(ctx, r[0], r[1], {"kind": "query", "qs": qs}, True, "get-exhaustive-2")
     ctx.oracle_count("get-exhaustive-2", cnt, cnt)
     rng = ctx.sub_rng("oracle-query")
     m = ctx.scale(30000, 250000)
@@ -1893,7 +1901,7 @@ def run(ctx):
         qs = rand_qs(rng, 14)
         r = oracle_query(qs)
         if r:
-            ctx.fail(r[0], r[1], {"kind": "query", "qs": qs}, True, "get-random")
+            _fail(ctx, r[0], r[1], {"kind": "query", "qs": qs}, True, "get-random")
         s = ref_selfcheck(qs)
         if s:
             ctx.broken.append(s)
@@ -1909,7 +1917,7 @@ def run(ctx):
                 cnt += 1
                 r = oracle_history(qs0, list(ops))
                 if r:
-                    ctx.fail(r[0], r[1], {"kind": "history", "qs0": qs0, "ops": list(ops)}, True, "mutation-exhaustive")
+                    _fail(ctx, r[0], r[1], {"kind": "history", "qs0": qs0, "ops": list(ops)}, True, "mutation-exhaustive")
     ctx.oracle_count("mutation-exhaustive", cnt, cnt)
     rng = ctx.sub_rng("oracle-history")
     m = ctx.scale(4000, 30000)
@@ -1917,7 +1925,7 @@ def run(ctx):
         qs0, ops = rand_history(rng, 25)
         r = oracle_history(qs0, ops)
         if r:
-            ctx.fail(r[0], r[1], {"kind": "history", "qs0": qs0, "ops": ops}, True, "mutation-random")
+            _fail(ctx, r[0], r[1], {"kind": "history", "qs0": qs0, "ops": ops}, True, "mutation-random")
     ctx.oracle_count("mutation-random", m, m)
 
     # ------------------------------------------------------------------ oracle: ONE long-lived Request / held GetDicts
@@ -1928,20 +1936,20 @@ def run(ctx):
         case = dict(c, kind="live")
         r = oracle_live(case)
         if r:
-            ctx.fail(r[0], r[1], case, True, "live-request")
+            _fail(ctx, r[0], r[1], case, True, "live-request")
     m = ctx.scale(5000, 60000)
     for _ in range(m):
         case = rand_live_case(rng, ctx.scale(14, 24))
         r = oracle_live(case)
         if r:
-            ctx.fail(r[0], r[1], case, True, "live-request")
+            _fail(ctx, r[0], r[1], case, True, "live-request")
     ctx.oracle_count("live-request", cnt + m, cnt + m)
     m = ctx.scale(4000, 40000)
     for _ in range(m):
         qs0, ops = rand_held_history(rng, 20)
         r = run_held_history(qs0, ops, check=True)
         if r:
-            ctx.fail(r[0], r[1], {"kind": "held", "qs0": qs0, "ops": ops}, True, "held-getdict")
+            _fail(ctx, r[0], r[1], {"kind": "held", "qs0": qs0, "ops": ops}, True, "held-getdict")
     # every 3-step interleaving of {mutation through a stale GetDict, raw edit, mutation through request.GET}
     HU = [("held", 0, ("pop", "a", True, None)), ("held", 0, ("pop", "zz", True, "d")), ("held", 0, ("add", "k&", "+ %")),
           ("held", 1, ("setdefault", "a", "x")), ("held", 1, ("del", "a")), ("held", 0, ("copy",)), ("setqs", "a=%31;b=+"),
@@ -1953,7 +1961,7 @@ def run(ctx):
             cnt += 1
             r = run_held_history("a=1&b=2", list(ops), check=True)
             if r:
-                ctx.fail(r[0], r[1], {"kind": "held", "qs0": "a=1&b=2", "ops": list(ops)}, True, "held-getdict")
+                _fail(ctx, r[0], r[1], {"kind": "held", "qs0": "a=1&b=2", "ops": list(ops)}, True, "held-getdict")
     ctx.oracle_count("held-getdict", m + cnt, m + cnt)
 
     # ------------------------------------------------------------------ oracle: caller's arguments, call order
@@ -1965,7 +1973,7 @@ def run(ctx):
         form = rng.choice(["list", "tuple", "dict", "md"]) + rng.choice(["", "-fileobj", "-listval"])
         r = oracle_args(fields, mode, form)
         if r:
-            ctx.fail(r[0], r[1], {"kind": "args", "fields": fields, "mode": mode, "form": form}, True, "blank-args")
+            _fail(ctx, r[0], r[1], {"kind": "args", "fields": fields, "mode": mode, "form": form}, True, "blank-args")
     ctx.oracle_count("blank-args", m, m)
     m = ctx.scale(10, 80)
     n_calls = 0
@@ -1976,7 +1984,7 @@ def run(ctx):
         n_calls += 3 * len(items)
         r = oracle_order(items, perms)
         if r:
-            ctx.fail(r[0], r[1], {"kind": "order", "items": items, "perms": perms}, True, "call-order")
+            _fail(ctx, r[0], r[1], {"kind": "order", "items": items, "perms": perms}, True, "call-order")
     ctx.oracle_count("call-order", n_calls, n_calls)
 
     # ------------------------------------------------------------------ oracle: configurations, argument shapes
@@ -1988,7 +1996,7 @@ def run(ctx):
         cfg = rand_cfg(rng, mode)
         r = oracle_post_cfg(fields, mode, cfg)
         if r:
-            ctx.fail(r[0], r[1], {"kind": "post-cfg", "fields": fields, "mode": mode, "cfg": cfg}, True, "config-post")
+            _fail(ctx, r[0], r[1], {"kind": "post-cfg", "fields": fields, "mode": mode, "cfg": cfg}, True, "config-post")
     ctx.oracle_count("config-post", m, m)
     m = ctx.scale(2000, 20000)
     for j in range(m):
@@ -1996,7 +2004,7 @@ def run(ctx):
         shape = SHAPES[j % len(SHAPES)]
         r = oracle_shapes(fields, shape)
         if r:
-            ctx.fail(r[0], r[1], {"kind": "shape", "fields": fields, "shape": shape}, True, "blank-shapes")
+            _fail(ctx, r[0], r[1], {"kind": "shape", "fields": fields, "shape": shape}, True, "blank-shapes")
     ctx.oracle_count("blank-shapes", m, m)
     m = ctx.scale(1500, 15000)
     for _ in range(m):
@@ -2007,7 +2015,7 @@ def run(ctx):
         where = rng.choice(["positional", "keyword", "implicit"])
         r = oracle_decode_cfg(cs, pairs, errors, late, where)
         if r:
-            ctx.fail(r[0], r[1], {"kind": "decode-cfg", "cs": cs, "pairs": pairs, "errors": errors, "late": late,
+            _fail(ctx, r[0], r[1], {"kind": "decode-cfg", "cs": cs, "pairs": pairs, "errors": errors, "late": late,
                                   "where": where}, True, "decode-config")
     ctx.oracle_count("decode-config", m, m)
 
@@ -2020,7 +2028,7 @@ def run(ctx):
         cnt += 1
         r = oracle_outside_get(qs0, kind, key)
         if r:
-            ctx.fail(r[0], r[1], {"kind": "outside-get", "qs0": qs0, "bad": kind, "key": key}, True, "outside-domain")
+            _fail(ctx, r[0], r[1], {"kind": "outside-get", "qs0": qs0, "bad": kind, "key": key}, True, "outside-domain")
     misc = [{"t": "qs-non-wsgi", "qs": q} for q in ("a=€", "\u0100", "a=1&b=\U0001f600", "%41=\u20ac;x")] + \
         [{"t": "refusals", "fields": []}]
     for _ in range(ctx.scale(300, 3000)):
@@ -2039,7 +2047,7 @@ def run(ctx):
         cnt += 1
         r = oracle_outside_misc(case)
         if r:
-            ctx.fail(r[0], r[1], dict(case, kind="outside-misc"), True, "outside-domain")
+            _fail(ctx, r[0], r[1], dict(case, kind="outside-misc"), True, "outside-domain")
     ctx.oracle_count("outside-domain", cnt, cnt)
 
     # ------------------------------------------------------------------ oracle: POST round trips
@@ -2056,7 +2064,7 @@ def run(ctx):
         nfile += any(not isinstance(v, str) for _, v in fields)
         r = oracle_post(fields, mode, form)
         if r:
-            ctx.fail(r[0], r[1], {"kind": "post", "fields": r[2], "mode": mode, "form": form}, True, "post-roundtrip")
+            _fail(ctx, r[0], r[1], {"kind": "post", "fields": r[2], "mode": mode, "form": form}, True, "post-roundtrip")
     ctx.oracle_count("post-roundtrip", m, nfile)
     cnt = 0
     for fields in DIRECTED_FIELDS:
@@ -2065,7 +2073,7 @@ def run(ctx):
                 cnt += 1
                 r = oracle_post(fields, mode, form)
                 if r:
-                    ctx.fail(r[0], r[1], {"kind": "post", "fields": r[2], "mode": mode, "form": form}, True,
+                    _fail(ctx, r[0], r[1], {"kind": "post", "fields": r[2], "mode": mode, "form": form}, True,
                              "post-directed")
     ctx.oracle_count("post-directed", cnt, cnt)
     # framing stress: every content over a CR/LF/dash alphabet up to a small length, as file and as text
@@ -2077,7 +2085,7 @@ def run(ctx):
             fields = [("f", ("x.bin", content)), ("t", content.decode("ascii")), ("g", ("y", content + b"\r\n"))]
             r = oracle_post(fields, "multipart", "list")
             if r:
-                ctx.fail(r[0], r[1], {"kind": "post", "fields": r[2], "mode": "multipart", "form": "list"}, True,
+                _fail(ctx, r[0], r[1], {"kind": "post", "fields": r[2], "mode": "multipart", "form": "list"}, True,
                          "post-framing")
     ctx.oracle_count("post-framing", cnt, cnt)
 
@@ -2093,7 +2101,7 @@ def run(ctx):
             cnt += 1
             r = oracle_decode_query(pairs, cs, raw, rng.random() < 0.5)
             if r:
-                ctx.fail(r[0], r[1], {"kind": "decode-query", "pairs": pairs, "cs": cs, "raw": raw}, True, "decode")
+                _fail(ctx, r[0], r[1], {"kind": "decode-query", "pairs": pairs, "cs": cs, "raw": raw}, True, "decode")
         for _ in range(m // 2):
             if cs == "utf-16":
                 break
@@ -2102,7 +2110,7 @@ def run(ctx):
             cnt += 1
             r = oracle_decode_multipart(fields, cs, ctform)
             if r:
-                ctx.fail(r[0], r[1], {"kind": "decode-multipart", "fields": fields, "cs": cs, "ctform": ctform}, True,
+                _fail(ctx, r[0], r[1], {"kind": "decode-multipart", "fields": fields, "cs": cs, "ctform": ctform}, True,
                          "decode")
     ctx.oracle_count("decode", cnt, cnt)
 
